@@ -34,13 +34,19 @@ Section Bisector.
 
   (** bisect.rs:200-210 candidates():
       input_range & (heads(good)..roots(bad)) ~ bad ~ skipped *)
-  Definition is_candidate (st : bstate) (x : nat) : bool :=
+  Definition cand_with (rb hg : list nat) (st : bstate) (x : nat) : bool :=
     memn x R
-    && anc_any_t t (roots_of_t t (st_bad st)) x
-    && negb (anc_any_t t (heads_of_t t (st_good st)) x)
+    && anc_any_t t rb x
+    && negb (anc_any_t t hg x)
     && negb (memn x (st_bad st))
     && negb (memn x (st_skipped st)).
-  Definition candidates (st : bstate) : list nat := filter (is_candidate st) (pos_desc g).
+  Definition is_candidate (st : bstate) (x : nat) : bool :=
+    cand_with (roots_of_t t (st_bad st)) (heads_of_t t (st_good st)) st x.
+  (** = filter (is_candidate st) (pos_desc g), with roots(bad) and heads(good) evaluated once *)
+  Definition candidates (st : bstate) : list nat :=
+    let rb := roots_of_t t (st_bad st) in
+    let hg := heads_of_t t (st_good st) in
+    filter (cand_with rb hg st) (pos_desc g).
 
   Definition mark (st : bstate) (x : nat) (e : evaluation) : bstate :=   (* bisect.rs:176 *)
     match e with
